@@ -61,7 +61,11 @@ class Standardiser(PoolDecorator):
         by_supply = _clamp(supply - self.backlog, value, supply + self.surplus)
         by_limits = _clamp(self.minimum, by_supply, self.maximum)
         # preserve the type of value, unless a fractional limit would be truncated
-        typed = type(value)(by_limits)
+        # or an infinite limit cannot be expressed in it
+        try:
+            typed = type(value)(by_limits)
+        except (OverflowError, ValueError):
+            return by_limits
         return typed if typed == by_limits else by_limits
 
     def __init__(
